@@ -134,3 +134,58 @@ theorem sum_ind_two {α : Type} (l : List α) (p : α → Bool) {i j : Nat} {a b
         omega
 
 end ALock.Atomic
+
+namespace ALock.Atomic
+
+theorem le_sum_map_of_getElem? {α : Type} (l : List α) (f : α → Nat) {i : Nat} {a : α}
+    (hi : l[i]? = some a) : f a ≤ (l.map f).sum := by
+  induction l generalizing i with
+  | nil => simp at hi
+  | cons x t ih =>
+    simp only [List.map_cons, List.sum_cons]
+    cases i with
+    | zero => simp only [List.getElem?_cons_zero, Option.some.injEq] at hi; subst hi; omega
+    | succ n => have := ih (by simpa using hi); omega
+
+theorem sum_map_two {α : Type} (l : List α) (f : α → Nat) {i j : Nat} {a b : α}
+    (hi : l[i]? = some a) (hj : l[j]? = some b) (hij : i ≠ j) :
+    f a + f b ≤ (l.map f).sum := by
+  induction l generalizing i j with
+  | nil => simp at hi
+  | cons x t ih =>
+    simp only [List.map_cons, List.sum_cons]
+    cases i with
+    | zero =>
+      cases j with
+      | zero => exact absurd rfl hij
+      | succ m =>
+        simp only [List.getElem?_cons_zero, Option.some.injEq] at hi
+        have := le_sum_map_of_getElem? t f (by simpa using hj : t[m]? = some b)
+        subst hi; omega
+    | succ n =>
+      cases j with
+      | zero =>
+        simp only [List.getElem?_cons_zero, Option.some.injEq] at hj
+        have := le_sum_map_of_getElem? t f (by simpa using hi : t[n]? = some a)
+        subst hj; omega
+      | succ m =>
+        have := ih (by simpa using hi : t[n]? = some a) (by simpa using hj : t[m]? = some b) (by omega)
+        omega
+
+theorem sum_map_zero_all {α : Type} (l : List α) (f : α → Nat) (h : (l.map f).sum = 0) :
+    ∀ a ∈ l, f a = 0 := by
+  induction l with
+  | nil => intro a ha; cases ha
+  | cons x t ih =>
+    simp only [List.map_cons, List.sum_cons] at h
+    intro a ha
+    rcases List.mem_cons.mp ha with rfl | ha
+    · omega
+    · exact ih (by omega) a ha
+
+theorem getElem?_modify_other {α : Type} (l : List α) (f : α → α) {i j : Nat} (h : j ≠ i) :
+    (l.modify i f)[j]? = l[j]? := by
+  rw [List.getElem?_modify]
+  simp [Ne.symm h]
+
+end ALock.Atomic
